@@ -1,7 +1,7 @@
 From Coq Require Import List NArith ZArith Bool.
 From SK Require Import lib.LGraph lib.Mono.
 From SK Require model.C06_Model model.C11_Model.
-From SK Require Import model.C03_Model model.C05_Model proof.C05_Proof proof.C05_Glue proof.C05_Pipe proof.C05_Prep proof.C05_Comp proof.C05_Main proof.C05_Order proof.C05_Sub proof.C05_Set proof.C05_Result proof.C05_AllStrat proof.C05_PrepOrder proof.C05_Final proof.C05_Default proof.C05_Rewrite proof.C05_Capstone proof.C05_Refuted proof.C05_Thms.
+From SK Require Import model.C03_Model model.C05_Model proof.C05_Proof proof.C05_Glue proof.C05_Pipe proof.C05_Prep proof.C05_Comp proof.C05_Main proof.C05_Order proof.C05_Sub proof.C05_Set proof.C05_Result proof.C05_AllStrat proof.C05_PrepOrder proof.C05_Final proof.C05_Default proof.C05_Rewrite proof.C05_Capstone proof.C05_Refuted proof.C05_Cap proof.C05_Thms.
 From SK Require Import lib.C06_Spec proof.C06_Comp.
 From SK Require proof.C11_Dedup.
 From Coq Require Import Permutation.
@@ -12,8 +12,13 @@ Import ListNotations.
     [pi] renumbers the substrate, [sg] renumbers the rule (the template's atom-map numbers ARE its node ids).
     Sections 1-5c are literal equalities of lists / list graphs (renumbering that keeps insertion order); sections 2', 3',
     6 and 7 are about graphs as FUNCTIONS and matches as SETS of pairs (any insertion order).  The vocabulary of the
-    latter is written out in [C05_vocabulary]. *)
+    latter is written out in [C05_vocabulary].
+    THE EMBEDDING CAP.  Every definition of the model takes the effective cap of the search engine as a parameter
+    ([TH : Thr], [thr_val]; SynReactor(embed_threshold = k) -> find_subgraph_mappings(threshold = k); the default 5000 is
+    [thr_of None]), so every theorem below that starts with [forall (TH : Thr)] holds for EVERY cap, the default one and
+    any non-default one, zero included.  What the cap itself does is section 14. *)
 Theorem C05_vocabulary :
+  forall (TH : Thr),
   (forall f, inj f <-> forall a b : N, f a = f b -> a = b) /\
   (forall sg pi (m : mapping), mv sg pi m = map (fun ph => (sg (fst ph), pi (snd ph))) m) /\
   (* the same graph written in another order: same node ids, labels, adjacency *)
@@ -27,15 +32,15 @@ Theorem C05_vocabulary :
   (forall host p, side_okb host p = true ->
      p_flag p = false /\ gwf (host_c06 host) /\ gwf (pat_c06 (p_pat p)) /\
      (C06_Model.lenN (C06_Model.monos_on (host_c06 host) (pat_c06 (p_pat p))
-                        (node_ids (host_c06 host)) (node_ids (pat_c06 (p_pat p)))) <= DEFAULT_THRESHOLD)%N /\
+                        (node_ids (host_c06 host)) (node_ids (pat_c06 (p_pat p)))) <= thr_val)%N /\
      NoDup (node_ids (p_rc p)) /\ simple_edgesb (gedges (p_rc p)) = true /\
      (forall a b x, In (a, b, x) (gedges (p_rc p)) -> In a (node_ids (p_rc p)) /\ In b (node_ids (p_rc p))) /\
      (forall u, In u (node_ids (p_pat p)) -> In u (node_ids (p_rc p)))) /\
   (* [side_okb_c] (what the run function evaluates) = [side_okb] and the component-aware bound of the C06 specification *)
   (forall host p, side_okb_c host p = true ->
      side_okb host p = true /\
-     (comp_bound (C06_Model.monos_on (host_c06 host) (pat_c06 (p_pat p))) true (host_c06 host) (pat_c06 (p_pat p)) <= DEFAULT_THRESHOLD)%N).
-Proof. exact thm_vocabulary. Qed.
+     (comp_bound (C06_Model.monos_on (host_c06 host) (pat_c06 (p_pat p))) true (host_c06 host) (pat_c06 (p_pat p)) <= thr_val)%N).
+Proof. exact @thm_vocabulary. Qed.
 Print Assumptions C05_vocabulary.
 
 (** 1. Gluing is equivariant: the relabelled rule glued onto the relabelled substrate along the transported match is the
@@ -52,6 +57,7 @@ Print Assumptions C05_glue_equivariant.
     (ALL / COMPONENT / BACKTRACK: connected components, per-component enumeration, length sort, back-tracking combination)
     as SynReactor.mappings configures the engine; (c) the automorphisms of the rule used for pruning. *)
 Theorem C05_matches_equivariant :
+  forall (TH : Thr),
   (forall (A B : Type) (sg pi : N -> N), inj pi ->
    forall (hn : list N) (pl hl pl' hl' : N -> A) (pe he pe' he' : N -> N -> option B)
           (nm : A -> A -> bool) (em : B -> B -> bool) (induced : bool),
@@ -64,7 +70,7 @@ Theorem C05_matches_equivariant :
      matches strat (relabel pi host) (relabel sg pat) = map (mv sg pi) (matches strat host pat)) /\
   (forall (sg : N -> N), inj sg ->
    forall rc : its, rule_auts (relabel sg rc) = map (mv sg sg) (rule_auts rc)).
-Proof. exact thm_matches_equivariant. Qed.
+Proof. exact @thm_matches_equivariant. Qed.
 Print Assumptions C05_matches_equivariant.
 
 (** 3. Strategies, dispatch.  The fallback strategy returns the component-aware result whenever that is non-empty: raw
@@ -73,6 +79,7 @@ Print Assumptions C05_matches_equivariant.
     re-matching inside _glue_graph uses the strategy again, so the glued-graph clause is stated for patterns without
     explicit X-H bonds.  The inclusion comp <= all is 3' below. *)
 Theorem C05_strategy_dispatch :
+  forall (TH : Thr),
   (forall host pat, matches 1%N host pat <> [] -> matches 2%N host pat = matches 1%N host pat) /\
   (forall host p, raw_of 1%N host p <> [] -> kept_of 2%N host p = kept_of 1%N host p) /\
   (forall host p, p_flag p = false -> raw_of 1%N host p <> [] -> glued_of 2%N host p = glued_of 1%N host p) /\
@@ -80,14 +87,15 @@ Theorem C05_strategy_dispatch :
      (length (C06_Model.comps (pat_c06 pat)) <> 0)%nat ->
      (length (C06_Model.comps (host_c06 host)) < length (C06_Model.comps (pat_c06 pat)))%nat ->
      matches 1%N host pat = matches 0%N host pat).
-Proof. exact thm_strategy_dispatch. Qed.
+Proof. exact @thm_strategy_dispatch. Qed.
 Print Assumptions C05_strategy_dispatch.
 
 (** 4. Repetition: the modelled pipeline is a function of its inputs (no hidden state). *)
 Theorem C05_repeat :
+  forall (TH : Thr),
   forall inv imp ex s (h h' : hostg) (t t' : its),
     h = h' -> t = t' -> pipeline inv imp ex s h t = pipeline inv imp ex s h' t'.
-Proof. exact thm_repeat. Qed.
+Proof. exact @thm_repeat. Qed.
 Print Assumptions C05_repeat.
 
 (** 5a. The symmetry pruning is equivariant, returns a sub-list of the raw matches in their order, and loses no class:
@@ -121,12 +129,13 @@ Print Assumptions C05_prune_sound.
     of every writing and strategy with the implementation (whose VF2 order differs from the model's), the oracle
     compares reaction sets across writings. *)
 Theorem C05_result_list_equivariant :
+  forall (TH : Thr),
   forall (strat : N) (sg pi : N -> N), inj sg -> inj pi ->
   forall (host : hostg) (p : prepared), p_flag p = false ->
     kept_of strat (relabel pi host) (relabel_prep sg p) = map (mv sg pi) (kept_of strat host p) /\
     glued_of strat (relabel pi host) (relabel_prep sg p) = map (relabel pi) (glued_of strat host p) /\
     results_of false strat (relabel pi host) (relabel_prep sg p) = option_map (map (relabel pi)) (results_of false strat host p).
-Proof. exact thm_result_list_equivariant. Qed.
+Proof. exact @thm_result_list_equivariant. Qed.
 Print Assumptions C05_result_list_equivariant.
 
 (** 5c. End to end from the template (implicit-hydrogen mode: SynReactor(..., implicit_temp=True, explicit_h=False), both
@@ -134,13 +143,14 @@ Print Assumptions C05_result_list_equivariant.
     renumbering of the template, hence the result list of the renumbered (substrate, template) pair is the renumbered
     result list.  Same restrictions as 5b otherwise. *)
 Theorem C05_pipeline_equivariant_implicit :
+  forall (TH : Thr),
   forall (strat : N) (sg pi : N -> N), inj sg -> inj pi ->
   forall (inv : bool) (host : hostg) (tpl : its) (p : prepared),
     prepare inv true tpl = Some p -> p_flag p = false ->
     prepare inv true (relabel sg tpl) = Some (relabel_prep sg p) /\
     pipeline inv true false strat (relabel pi host) (relabel sg tpl)
     = option_map (map (relabel pi)) (pipeline inv true false strat host tpl).
-Proof. exact thm_pipeline_equivariant_implicit. Qed.
+Proof. exact @thm_pipeline_equivariant_implicit. Qed.
 Print Assumptions C05_pipeline_equivariant_implicit.
 
 (** 2'. Insertion order.  [same_graph g g'] : the same node ids, labels and adjacency, whatever the insertion order of
@@ -149,12 +159,13 @@ Print Assumptions C05_pipeline_equivariant_implicit.
     (renumbering pi, then any reordering) every raw match is transported to a raw match of the rewritten substrate.
     (Pattern-side reordering and the other strategies: not proved, see 5b.) *)
 Theorem C05_matches_order_independent :
+  forall (TH : Thr),
   (forall (host host' : hostg) (pat : molg), same_graph host host' ->
      forall m, In m (matches 0%N host pat) <-> In m (matches 0%N host' pat)) /\
   (forall (sg pi : N -> N), inj sg -> inj pi ->
    forall (host host' : hostg) (pat : molg), same_graph (relabel pi host) host' ->
      forall m, In m (matches 0%N host pat) -> In (mv sg pi m) (matches 0%N host' (relabel sg pat))).
-Proof. exact thm_matches_order_independent. Qed.
+Proof. exact @thm_matches_order_independent. Qed.
 Print Assumptions C05_matches_order_independent.
 
 (** 3'. The component-aware strategy returns a subset of the exhaustive strategy: every component-aware match is, as a
@@ -165,13 +176,14 @@ Print Assumptions C05_matches_order_independent.
     empties a result, and the exhaustive search is the first to get there).  Derived from the specification theorems
     of proof/C06_*.v (C06_comp_spec, C06_all_exact) instantiated with the reactor's configuration. *)
 Theorem C05_strategy_subset :
+  forall (TH : Thr),
   forall (host : hostg) (pat : molg),
     gwf (host_c06 host) -> gwf (pat_c06 pat) ->
-    (comp_bound (C06_Model.monos_on (host_c06 host) (pat_c06 pat)) true (host_c06 host) (pat_c06 pat) <= DEFAULT_THRESHOLD)%N ->
+    (comp_bound (C06_Model.monos_on (host_c06 host) (pat_c06 pat)) true (host_c06 host) (pat_c06 pat) <= thr_val)%N ->
     (C06_Model.lenN (C06_Model.monos_on (host_c06 host) (pat_c06 pat) (node_ids (host_c06 host)) (node_ids (pat_c06 pat)))
-       <= DEFAULT_THRESHOLD)%N ->
+       <= thr_val)%N ->
     forall m, In m (matches 1%N host pat) -> exists m', In m' (matches 0%N host pat) /\ Permutation m m'.
-Proof. exact thm_strategy_subset. Qed.
+Proof. exact @thm_strategy_subset. Qed.
 Print Assumptions C05_strategy_subset.
 
 (** 6. The glue does not look at insertion orders, and matches of one pruning class glue to the same ITS.
@@ -216,6 +228,7 @@ Print Assumptions C05_glue_order_independent.
     Every strategy: section 8 (one more premise).  Not covered: the explicit-hydrogen path, the _explicit_h stage, rule
     preparation under re-ordering of the template (under renumbering: 5c). *)
 Theorem C05_result_set_invariant_exhaustive :
+  forall (TH : Thr),
   forall (sg pi : N -> N), inj sg -> inj pi ->
   forall (host host'' : hostg) (p p'' : prepared),
     side_okb (relabel pi host) (relabel_prep sg p) = true -> side_okb host'' p'' = true ->
@@ -223,7 +236,7 @@ Theorem C05_result_set_invariant_exhaustive :
     same_graph (relabel sg (p_pat p)) (p_pat p'') ->
     (forall T, In T (glued_of 0%N host p) -> exists T'', In T'' (glued_of 0%N host'' p'') /\ obs_eq (relabel pi T) T'') /\
     (forall T'', In T'' (glued_of 0%N host'' p'') -> exists T, In T (glued_of 0%N host p) /\ obs_eq (relabel pi T) T'').
-Proof. exact thm_result_set_invariant_exhaustive. Qed.
+Proof. exact @thm_result_set_invariant_exhaustive. Qed.
 Print Assumptions C05_result_set_invariant_exhaustive.
 
 (** 8. C05_result_set_invariant — the clause for EVERY strategy (0 exhaustive, 1 component-aware, 2 fallback), at graph
@@ -244,6 +257,7 @@ Print Assumptions C05_result_set_invariant_exhaustive.
     TEMPLATE is section 9.  (ii) and (iii) are compared with the implementation on every run (multisets of glued graphs
     per writing and strategy). *)
 Theorem C05_result_set_invariant_partial :
+  forall (TH : Thr),
   forall (strat : N), strat = 0%N \/ strat = 1%N \/ strat = 2%N ->
   forall (sg pi : N -> N), inj sg -> inj pi ->
   forall (host host'' : hostg) (p p'' : prepared),
@@ -252,7 +266,7 @@ Theorem C05_result_set_invariant_partial :
     same_graph (relabel sg (p_pat p)) (p_pat p'') ->
     (forall T, In T (glued_of strat host p) -> exists T'', In T'' (glued_of strat host'' p'') /\ obs_eq (relabel pi T) T'') /\
     (forall T'', In T'' (glued_of strat host'' p'') -> exists T, In T (glued_of strat host p) /\ obs_eq (relabel pi T) T'').
-Proof. exact thm_result_set_invariant_partial. Qed.
+Proof. exact @thm_result_set_invariant_partial. Qed.
 Print Assumptions C05_result_set_invariant_partial.
 
 (** 9. From the template, implicit-hydrogen mode (SynReactor(..., implicit_temp=True, explicit_h=False)), both
@@ -262,6 +276,7 @@ Print Assumptions C05_result_set_invariant_partial.
     up to the renumbering (premises [side_okb_c], as in 8).  Rule preparation
     (its_decompose, typesGH refresh, _invert_template, the explicit X-H test) only depends on the template as a graph. *)
 Theorem C05_pipeline_set_invariant_implicit :
+  forall (TH : Thr),
   forall (strat : N), strat = 0%N \/ strat = 1%N \/ strat = 2%N ->
   forall (sg pi : N -> N) (inv : bool) (host host'' : hostg) (tpl tpl'' : its) (p : prepared),
     inj sg -> inj pi ->
@@ -274,17 +289,18 @@ Theorem C05_pipeline_set_invariant_implicit :
       (side_okb_c (relabel pi host) (relabel_prep sg p) = true -> side_okb_c host'' p'' = true ->
        (forall T, In T (glued_of strat host p) -> exists T'', In T'' (glued_of strat host'' p'') /\ obs_eq (relabel pi T) T'') /\
        (forall T'', In T'' (glued_of strat host'' p'') -> exists T, In T (glued_of strat host p) /\ obs_eq (relabel pi T) T'')).
-Proof. exact thm_pipeline_set_invariant_implicit. Qed.
+Proof. exact @thm_pipeline_set_invariant_implicit. Qed.
 Print Assumptions C05_pipeline_set_invariant_implicit.
 
 (** 3''. The same inclusion for RESULTS: every glued ITS graph of the component-aware strategy, and of the fallback
     strategy, is (up to [obs_eq]) a glued ITS graph of the exhaustive strategy on the same inputs — although the three
     strategies keep different representatives of the pruning classes.  Premise [side_okb_c], evaluated on every writing. *)
 Theorem C05_strategy_subset_results :
+  forall (TH : Thr),
   forall (host : hostg) (p : prepared), side_okb_c host p = true ->
     (forall T, In T (glued_of 1%N host p) -> exists T', In T' (glued_of 0%N host p) /\ obs_eq T T') /\
     (forall T, In T (glued_of 2%N host p) -> exists T', In T' (glued_of 0%N host p) /\ obs_eq T T').
-Proof. exact thm_strategy_subset_results. Qed.
+Proof. exact @thm_strategy_subset_results. Qed.
 Print Assumptions C05_strategy_subset_results.
 
 (** 10. The DEFAULT configuration (SynReactor(substrate, template): explicit_h=True, implicit_temp=False), both directions,
@@ -297,6 +313,7 @@ Print Assumptions C05_strategy_subset_results.
     (Templates that write hydrogen changes with explicit H atoms: pair ids and fresh hydrogen ids are allocated in numeric
     order — compared with the implementation on every run, not covered here.) *)
 Theorem C05_pipeline_set_invariant_default :
+  forall (TH : Thr),
   forall (strat : N), strat = 0%N \/ strat = 1%N \/ strat = 2%N ->
   forall (sg pi : N -> N) (inv : bool) (host host'' : hostg) (tpl tpl'' : its),
     inj sg -> inj pi ->
@@ -313,7 +330,7 @@ Theorem C05_pipeline_set_invariant_default :
         exists T'', In T'' (glued_of strat host'' (prep_default inv tpl'')) /\ obs_eq (relabel pi T) T'') /\
      (forall T'', In T'' (glued_of strat host'' (prep_default inv tpl'')) ->
         exists T, In T (glued_of strat host (prep_default inv tpl)) /\ obs_eq (relabel pi T) T'')).
-Proof. exact thm_pipeline_set_invariant_default. Qed.
+Proof. exact @thm_pipeline_set_invariant_default. Qed.
 Print Assumptions C05_pipeline_set_invariant_default.
 
 (** 11. The premise "the second writing is the first one renumbered and re-ordered" of sections 8-10 is checked inside Coq
@@ -340,6 +357,7 @@ Print Assumptions C05_rewriting_monitor.
     hydrogen-free with distinct ids (evaluable booleans).
     12a: prepared rules, every strategy. *)
 Theorem C05_result_set_invariant_checked :
+  forall (TH : Thr),
   forall (strat : N), strat = 0%N \/ strat = 1%N \/ strat = 2%N ->
   forall (sg pi : N -> N), inj sg -> inj pi ->
   forall (host0 host : hostg) (p0 p : prepared),
@@ -347,11 +365,12 @@ Theorem C05_result_set_invariant_checked :
     same_graph (relabel pi host0) host -> same_graph (relabel sg (p_rc p0)) (p_rc p) -> same_graph (relabel sg (p_pat p0)) (p_pat p) ->
     (forall T, In T (glued_of strat host0 p0) -> exists T', In T' (glued_of strat host p) /\ obs_eq (relabel pi T) T') /\
     (forall T', In T' (glued_of strat host p) -> exists T, In T (glued_of strat host0 p0) /\ obs_eq (relabel pi T) T').
-Proof. exact thm_result_set_invariant_checked. Qed.
+Proof. exact @thm_result_set_invariant_checked. Qed.
 Print Assumptions C05_result_set_invariant_checked.
 
 (** 12b: from the template, implicit-hydrogen mode. *)
 Theorem C05_pipeline_checked_implicit :
+  forall (TH : Thr),
   forall (strat : N), strat = 0%N \/ strat = 1%N \/ strat = 2%N ->
   forall (inv : bool) (host0 host : hostg) (tpl0 tpl : its) (pi sg : list (N * N)) (p0 : prepared),
     rewriting_okb host0 tpl0 (host, tpl, pi, sg) = true ->
@@ -362,11 +381,12 @@ Theorem C05_pipeline_checked_implicit :
       (side_okb_c host p = true ->
        (forall T, In T (glued_of strat host0 p0) -> exists T', In T' (glued_of strat host p) /\ obs_eq (relabel (apply_map pi) T) T') /\
        (forall T', In T' (glued_of strat host p) -> exists T, In T (glued_of strat host0 p0) /\ obs_eq (relabel (apply_map pi) T) T')).
-Proof. exact thm_pipeline_checked_implicit. Qed.
+Proof. exact @thm_pipeline_checked_implicit. Qed.
 Print Assumptions C05_pipeline_checked_implicit.
 
 (** 12c: from the template, default configuration, hydrogen-free templates. *)
 Theorem C05_pipeline_checked_default :
+  forall (TH : Thr),
   forall (strat : N), strat = 0%N \/ strat = 1%N \/ strat = 2%N ->
   forall (inv : bool) (host0 host : hostg) (tpl0 tpl : its) (pi sg : list (N * N)),
     rewriting_okb host0 tpl0 (host, tpl, pi, sg) = true ->
@@ -379,7 +399,7 @@ Theorem C05_pipeline_checked_default :
        exists T', In T' (glued_of strat host (prep_default inv tpl)) /\ obs_eq (relabel (apply_map pi) T) T') /\
     (forall T', In T' (glued_of strat host (prep_default inv tpl)) ->
        exists T, In T (glued_of strat host0 (prep_default inv tpl0)) /\ obs_eq (relabel (apply_map pi) T) T').
-Proof. exact thm_pipeline_checked_default. Qed.
+Proof. exact @thm_pipeline_checked_default. Qed.
 Print Assumptions C05_pipeline_checked_default.
 
 (** 13. REFUTED on the explicit-hydrogen path (the code is kept as it is; known finding "explicit-path:bt-equals-comp"):
@@ -390,7 +410,69 @@ Print Assumptions C05_pipeline_checked_default.
     and glues 2 graphs, BACKTRACK glues 4. *)
 Theorem C05_bt_equals_comp_explicit_path_refuted :
   exists (host : hostg) (p : prepared),
-    p_flag p = true /\ raw_of 1%N host p <> [] /\
-    length (glued_of 1%N host p) = 2%nat /\ length (glued_of 2%N host p) = 4%nat.
+    p_flag p = true /\ @raw_of (thr_of None) 1%N host p <> [] /\
+    length (@glued_of (thr_of None) 1%N host p) = 2%nat /\ length (@glued_of (thr_of None) 2%N host p) = 4%nat.
 Proof. exact thm_bt_equals_comp_explicit_path_refuted. Qed.
 Print Assumptions C05_bt_equals_comp_explicit_path_refuted.
+
+(** 14. The embedding cap.  (a) how the option is read: not given = 5000; [Some 0] is a real cap (not "no cap"); no strategy
+    ever returns more embeddings than the cap, and cap 0 empties every search. *)
+Theorem C05_embed_threshold_option :
+  eff_thr None = 5000%N /\ (forall k, eff_thr (Some k) = k) /\ eff_thr (Some 0%N) = 0%N /\
+  (forall o, @thr_val (thr_of o) = eff_thr o) /\
+  (forall (TH : Thr) strat host pat, (C06_Model.lenN (matches strat host pat) <= thr_val)%N) /\
+  (forall (TH : Thr) strat host pat, thr_val = 0%N -> matches strat host pat = []).
+Proof. exact thm_embed_threshold_option. Qed.
+Print Assumptions C05_embed_threshold_option.
+
+(** (b) ALL OR NOTHING: under any cap a search answers with its complete, limit-free result or with nothing — never with
+    "the first k embeddings in enumeration order", which would depend on how the inputs are written.  [enum_all] = every
+    embedding of the pattern (the verified enumerator), [comp_unl] = the limit-free component-aware result of the C06
+    specification.  An exhaustive search over the cap produces no match, no glued graph, and [its_list] = []. *)
+Theorem C05_cap_all_or_nothing :
+  forall (TH : Thr),
+  (forall host pat,
+     matches 0%N host pat = if (thr_val <? C06_Model.lenN (enum_all host pat))%N then [] else enum_all host pat) /\
+  (forall host pat,
+     matches 1%N host pat = [] \/
+     matches 1%N host pat = C06_Comp.comp_unl (C06_Model.monos_on (host_c06 host) (pat_c06 pat)) true (host_c06 host) (pat_c06 pat)) /\
+  (forall host pat,
+     matches 2%N host pat = [] \/
+     matches 2%N host pat = C06_Comp.comp_unl (C06_Model.monos_on (host_c06 host) (pat_c06 pat)) true (host_c06 host) (pat_c06 pat) \/
+     matches 2%N host pat = enum_all host pat) /\
+  (forall host p, (thr_val < C06_Model.lenN (enum_all host (p_pat p)))%N ->
+     raw_of 0%N host p = [] /\ kept_of 0%N host p = [] /\ glued_of 0%N host p = [] /\
+     forall ex, results_of ex 0%N host p = Some []).
+Proof. exact thm_cap_all_or_nothing. Qed.
+Print Assumptions C05_cap_all_or_nothing.
+
+(** (c) WHICH of the two it is does not depend on the writing: the number of embeddings is the same for every insertion
+    order of the substrate and for every renumbering of substrate and pattern — so a search that is over the cap for one
+    writing is over the cap (and empty) for the other.  (Re-ordering of the PATTERN's node list: the count is compared
+    on every writing by the correspondence — [side_okb] contains it — not proved.) *)
+Theorem C05_cap_decision_invariant :
+  (forall (host host' : hostg) (pat : molg), same_graph host host' ->
+     C06_Model.lenN (enum_all host' pat) = C06_Model.lenN (enum_all host pat)) /\
+  (forall (sg pi : N -> N), inj sg -> inj pi ->
+   forall (host host' : hostg) (pat : molg), same_graph (relabel pi host) host' ->
+     C06_Model.lenN (enum_all host' (relabel sg pat)) = C06_Model.lenN (enum_all host pat)) /\
+  (forall (TH : Thr) (sg pi : N -> N), inj sg -> inj pi ->
+   forall (host host' : hostg) (pat : molg), same_graph (relabel pi host) host' ->
+     (thr_val < C06_Model.lenN (enum_all host pat))%N ->
+     matches 0%N host pat = [] /\ matches 0%N host' (relabel sg pat) = []).
+Proof. exact thm_cap_decision_invariant. Qed.
+Print Assumptions C05_cap_decision_invariant.
+
+(** (d) REFUTED under a non-default cap (the code is kept as it is; known finding "capped:comp-subset"): "the
+    component-aware strategy returns a subset of the exhaustive strategy" — 3' has the premise "both searches below the
+    cap".  Halogen exchange on ClCCBr.ClCCBr: 4 embeddings / 4 glued graphs for the exhaustive search, 2 for the
+    component-aware one; with embed_threshold = 3 the documented guard empties the exhaustive result only (and BACKTRACK
+    returns the component-aware result). *)
+Theorem C05_comp_subset_capped_refuted :
+  exists (host : hostg) (p : prepared),
+    length (@glued_of (thr_of None) 0%N host p) = 4%nat /\ length (@glued_of (thr_of None) 1%N host p) = 2%nat /\
+    p_flag p = false /\ @glued_of (thr_of (Some 3%N)) 0%N host p = [] /\
+    length (@glued_of (thr_of (Some 3%N)) 1%N host p) = 2%nat /\
+    @glued_of (thr_of (Some 3%N)) 2%N host p = @glued_of (thr_of (Some 3%N)) 1%N host p.
+Proof. exact thm_comp_subset_capped_refuted. Qed.
+Print Assumptions C05_comp_subset_capped_refuted.
